@@ -20,26 +20,36 @@ ProtElem(a) == Enc(IF a = "none" THEN Bstr(<<>>) ELSE Bstr(Enc(Map(<<<<UInt(1), 
 UnprotElem(k) == Enc(Map(<<<<UInt(4), Bstr(KidBytes(k))>>>>))
 PayloadElem(p) == Enc(IF p = "nil" THEN Null ELSE Bstr(PayloadBytes(p)))
 
-InitStep == [op |-> "new", obj |-> "m", kind |-> "sign1",
-             m |-> [P |-> <<>>, U |-> <<<<GoInt("int64", 4), GoBytes(KidBytes(0))>>>>, payload |-> PayloadBytes("p1"), sig |-> <<>>]]
-Concrete(a) ==
-  CASE a.op = "sign" -> [op |-> "sign", obj |-> "m", signers |-> <<[kind |-> "sym", name |-> a.key, alg |-> AlgNum(a.alg), fault |-> a.fault]>>] @@ ExtRec(a.ext)
-    [] a.op = "verify" -> [op |-> "verify", obj |-> "m", verifiers |-> <<[kind |-> "sym", name |-> a.key, alg |-> AlgNum(a.alg), fault |-> ""]>>] @@ ExtRec(a.ext)
+BodyProt == <<67, 161, 3, 0>>                      \* body_protected handed to Signature.Sign / Verify
+InitStep == IF ObjKind = "sig"
+            THEN [op |-> "new", obj |-> "m", kind |-> "sig", m |-> [P |-> <<>>, U |-> <<<<GoInt("int64", 4), GoBytes(KidBytes(0))>>>>, sig |-> <<>>]]
+            ELSE [op |-> "new", obj |-> "m", kind |-> ObjKind,
+                  m |-> [P |-> <<>>, U |-> <<<<GoInt("int64", 4), GoBytes(KidBytes(0))>>>>, payload |-> PayloadBytes("p1"), sig |-> <<>>]]
+\* for a COSE_Signature the model's payload is what the caller passes from now on
+PayArg(h, i) == LET RECURSIVE lp(_)
+                    lp(j) == IF j = 0 THEN "p1" ELSE IF h[j].op = "edit" /\ h[j].what = "payload" THEN h[j].vp ELSE lp(j - 1)
+                IN lp(i - 1)
+SigArgs(h, i) == IF ObjKind = "sig" THEN [bodyprot |-> BodyProt, payload |-> PayloadBytes(PayArg(h, i))] ELSE [nop |-> 0]
+SigIdx == IF ObjKind = "sig" THEN 2 ELSE 3
+Concrete(h, i) ==
+  LET a == h[i] IN
+  CASE a.op = "sign" -> [op |-> "sign", obj |-> "m", signers |-> <<[kind |-> "sym", name |-> a.key, alg |-> AlgNum(a.alg), fault |-> a.fault]>>] @@ ExtRec(a.ext) @@ SigArgs(h, i)
+    [] a.op = "verify" -> [op |-> "verify", obj |-> "m", verifiers |-> <<[kind |-> "sym", name |-> a.key, alg |-> AlgNum(a.alg), fault |-> ""]>>] @@ ExtRec(a.ext) @@ SigArgs(h, i)
     [] a.op = "marshal" -> [op |-> "marshal", obj |-> "m", buf |-> "w"]
-    [] a.op = "unmarshal" -> [op |-> "unmarshal", obj |-> "m", kind |-> "sign1", buf |-> "w"]
+    [] a.op = "unmarshal" -> [op |-> "unmarshal", obj |-> "m", kind |-> ObjKind, buf |-> "w"]
     [] a.op = "edit" ->
          (CASE a.what = "palg" -> IF a.va = "none" THEN [op |-> "setalg", obj |-> "m", absent |-> TRUE, alg |-> 0] ELSE [op |-> "setalg", obj |-> "m", absent |-> FALSE, alg |-> AlgNum(a.va)]
             [] a.what = "ukid" -> [op |-> "setkid", obj |-> "m", kid |-> KidBytes(a.vk)]
-            [] a.what = "payload" -> [op |-> "setpayload", obj |-> "m", payload |-> PayloadBytes(a.vp)]
+            [] a.what = "payload" -> IF ObjKind = "sig" THEN [op |-> "probe", obj |-> "m"] ELSE [op |-> "setpayload", obj |-> "m", payload |-> PayloadBytes(a.vp)]
             [] a.what = "sig" -> [op |-> "setsig", obj |-> "m", slot |-> 0, sig |-> (IF a.vs = "junk" THEN JunkBytes ELSE <<>>)]
             [] a.what = "clearraw" -> [op |-> "clearraw", obj |-> "m"])
     [] a.op = "rewire" ->
          (CASE a.what = "palg" -> [op |-> "rewire", obj |-> "", buf |-> "w", idx |-> 0, elem |-> ProtElem(a.va)]
             [] a.what = "wide" -> [op |-> "rewire", obj |-> "", buf |-> "w", idx |-> 0, width |-> (IF a.vb THEN 2 ELSE 0)]
             [] a.what = "ukid" -> [op |-> "rewire", obj |-> "", buf |-> "w", idx |-> 1, elem |-> UnprotElem(a.vk)]
-            [] a.what = "payload" -> [op |-> "rewire", obj |-> "", buf |-> "w", idx |-> 2, elem |-> PayloadElem(a.vp)]
-            [] a.what = "sig" -> [op |-> "rewire", obj |-> "", buf |-> "w", idx |-> 3, elem |-> Enc(Bstr(IF a.vs = "junk" THEN JunkBytes ELSE <<>>))])
+            [] a.what = "payload" -> IF ObjKind = "sig" THEN [op |-> "probe", obj |-> "m"] ELSE [op |-> "rewire", obj |-> "", buf |-> "w", idx |-> 2, elem |-> PayloadElem(a.vp)]
+            [] a.what = "sig" -> [op |-> "rewire", obj |-> "", buf |-> "w", idx |-> SigIdx, elem |-> Enc(Bstr(IF a.vs = "junk" THEN JunkBytes ELSE <<>>))])
 \* every step is followed by a projection of the object, so that edits of the buffer and of the object are both observed
-Steps(h) == <<InitStep>> \o [i \in 1..Len(h) |-> Concrete(h[i])]
-Emit == Len(hist) < MaxHist \/ PrintT(<<"CASE", ToJson([acts |-> hist, steps |-> Steps(hist)])>>)
+Steps(h) == <<InitStep>> \o [i \in 1..Len(h) |-> Concrete(h, i)]
+Emit == Len(hist) < MaxHist \/ PrintT(<<"CASE", ToJson([okind |-> ObjKind, acts |-> hist, steps |-> Steps(hist)])>>)
 =============================================================================
